@@ -709,8 +709,9 @@ class _Model(object):
         self.solved = False      # cost readable: solve, then only P changes
         self.proj = None         # AltMin: interference-subspace projectors
         # stale bookkeeping for the lazily cached derived quantities
-        self.last = {}           # quantity -> last value returned
-        self.changes = {q: set() for q in DERIVED}
+        # quantity -> candidates [value, kinds of changes since it was
+        # (possibly) cached by the library]
+        self.cands = {q: [] for q in DERIVED}
         self.read_derived = False
         self.changed_after_read = False
 
@@ -735,22 +736,27 @@ class _Model(object):
         """the library documents/implements a reset of these caches here:
         nothing older can legitimately be returned afterwards"""
         for q in quantities:
-            self.last.pop(q, None)
-            self.changes[q] = set()
+            self.cands[q] = []
+
+    def now_cached(self, q, value):
+        """the library returned `value` for q (verified): that is what its
+        cache holds now"""
+        self.cands[q] = [[value, set()]]
+
+    def maybe_cached(self, q, value):
+        self.cands[q].append([value, set()])
 
     def implicitly_cached(self, what, obs):
         """computing `what` makes the library evaluate (and cache) the
         quantities it is derived from, if they were not cached already"""
-        if "full_F" not in self.last:
-            self.last["full_F"] = [f.copy() for f in self.fullF()]
-            self.changes["full_F"] = set()
-        if what == "full_W" and "full_W_H" not in self.last:
-            self.last["full_W_H"] = [o.conj().T.copy() for o in obs]
-            self.changes["full_W_H"] = set()
+        self.maybe_cached("full_F", [f.copy() for f in self.fullF()])
+        if what == "full_W":
+            self.maybe_cached("full_W_H", [o.conj().T.copy() for o in obs])
 
     def note_change(self, kind, quantities):
         for q in quantities:
-            self.changes[q].add(kind)
+            for c in self.cands[q]:
+                c[1].add(kind)
         if self.read_derived:
             self.changed_after_read = True
 
@@ -773,16 +779,23 @@ def _resolve_ns(op, cfg, model, cls):
 
 
 def _stale_tags(model, q, observed):
-    """was the mismatching value simply the previously cached one?"""
-    prev = model.last.get(q)
-    stale = False
-    if prev is not None and len(prev) == len(observed):
-        stale = all(np.shape(a) == np.shape(b) and
-                    _fro(np.asarray(a) - np.asarray(b)) <=
-                    1e-12 * (1.0 + _fro(b))
-                    for a, b in zip(observed, prev))
-    return dict(quantity=q, stale=bool(stale),
-                changes="+".join(sorted(model.changes[q])))
+    """was the mismatching value simply a previously cached one?  -> tags
+    quantity / stale / changes (kinds of changes since it was cached)"""
+    def same(a, b):
+        if np.isscalar(a) or np.isscalar(b):
+            return abs(a - b) <= 1e-12 * abs(b)
+        return len(a) == len(b) and all(
+            np.shape(x) == np.shape(y) and
+            _fro(np.asarray(x) - np.asarray(y)) <= 1e-12 * (1.0 + _fro(y))
+            for x, y in zip(a, b))
+    for value, changes in reversed(model.cands[q]):
+        if same(observed, value):
+            return dict(quantity=q, stale=True,
+                        changes="+".join(sorted(changes)))
+    allc = set()
+    for _, changes in model.cands[q]:
+        allc |= changes
+    return dict(quantity=q, stale=False, changes="+".join(sorted(allc)))
 
 
 def _read(ctx, solver, model, cls, what, tags, opi):
@@ -837,8 +850,7 @@ def _read(ctx, solver, model, cls, what, tags, opi):
         if bad:
             raise Violation("read_full_F", bad,
                             dict(t, **_stale_tags(model, "full_F", obs)))
-        model.last["full_F"] = [o.copy() for o in obs]
-        model.changes["full_F"] = set()
+        model.now_cached("full_F", [o.copy() for o in obs])
         return True
     if what in ("W", "W_H"):
         if model.W is None:
@@ -882,8 +894,7 @@ def _read(ctx, solver, model, cls, what, tags, opi):
                 _read(ctx, solver, model, cls, "full_W_H", tags, opi)
             raise Violation("read_" + what, bad,
                             dict(t, **_stale_tags(model, what, obs)))
-        model.last[what] = [o.copy() for o in obs]
-        model.changes[what] = set()
+        model.now_cached(what, [o.copy() for o in obs])
         model.implicitly_cached(what, obs)
         return True
     if what == "cost":
@@ -912,14 +923,10 @@ def _read(ctx, solver, model, cls, what, tags, opi):
             ctx.err("read_cost", e / (ref + 1e-3 * scale + 1e-300), 1e-8)
         else:
             _read(ctx, solver, model, cls, "full_F", tags, opi)
-            st_ = dict(quantity="cost", stale=bool(
-                model.last.get("cost") is not None and
-                abs(cost - model.last["cost"]) <= 1e-12 * abs(cost)),
-                changes="+".join(sorted(model.changes["cost"])))
+            st_ = _stale_tags(model, "cost", cost)
             raise Violation("read_cost", "get_cost=%r model %r" % (cost, ref),
                             dict(t, **st_))
-        model.last["cost"] = cost
-        model.changes["cost"] = set()
+        model.now_cached("cost", cost)
         model.implicitly_cached("cost", None)
         return True
     raise AssertionError("unknown read %r" % what)
@@ -1040,7 +1047,7 @@ def _apply(ctx, solver, model, cls, op, tags, opi):
         model.note_change("set_precoders", DERIVED)
         model.cache_cleared("full_F")
         if explicit is not None:   # the setter itself fills the cache
-            model.last["full_F"] = [f.copy() for f in explicit]
+            model.now_cached("full_F", [f.copy() for f in explicit])
         return
 
     if kind == "set_receive_filters":
@@ -1089,6 +1096,8 @@ def _apply(ctx, solver, model, cls, op, tags, opi):
             tags["F_container"] = t["F_container"] = "objarray"
             _postconditions(ctx, solver, cls, cfg, H, P_exp, t,
                             who="solve (history op %d)" % opi)
+            if cls == "ClosedForm":
+                _closed_form_nulling(ctx, solver, cfg, H, t)
         # adopt the solution as the new primaries
         model.P = None if op["p_form"] == "none" else P_exp
         model.F = [np.asarray(f).copy() for f in solver.F]
@@ -1103,14 +1112,13 @@ def _apply(ctx, solver, model, cls, op, tags, opi):
             model.proj = _altmin_projectors(H, model.fullF(), model.Ns(),
                                             cfg["Nr"])
         # the post-conditions read every derived quantity
-        for q in ("full_F", "full_W_H", "full_W"):
-            model.changes[q] = set()
-        model.changes["cost"] = set()
-        model.last["full_F"] = [np.asarray(f).copy() for f in solver.full_F]
-        model.last["full_W_H"] = [np.asarray(f).copy()
-                                  for f in solver.full_W_H]
-        model.last["full_W"] = [np.asarray(f).copy() for f in solver.full_W]
-        model.last.pop("cost", None)
+        model.now_cached("full_F",
+                         [np.asarray(f).copy() for f in solver.full_F])
+        model.now_cached("full_W_H",
+                         [np.asarray(f).copy() for f in solver.full_W_H])
+        model.now_cached("full_W",
+                         [np.asarray(f).copy() for f in solver.full_W])
+        model.cache_cleared("cost")
         if model.read_derived:
             model.changed_after_read = True
         model.read_derived = True
